@@ -136,6 +136,30 @@ class SymNd(np.ndarray):
     def __pow__(self, k):
         return _map(lambda x: Sym.of(x) ** k, self)
 
+    # in-place arithmetic with a bare symbolic scalar (numpy refuses: Sym opts out of ufuncs)
+    def _inplace(self, o, op):
+        if type(o) is Sym:
+            r = op(self, o)
+            _nd_setitem(self, Ellipsis, np.asarray(r, dtype=object))
+            return self
+        return NotImplemented
+
+    def __isub__(self, o):
+        r = self._inplace(o, lambda a, b: a - b)
+        return r if r is not NotImplemented else np.ndarray.__isub__(self, o)
+
+    def __iadd__(self, o):
+        r = self._inplace(o, lambda a, b: a + b)
+        return r if r is not NotImplemented else np.ndarray.__iadd__(self, o)
+
+    def __imul__(self, o):
+        r = self._inplace(o, lambda a, b: a * b)
+        return r if r is not NotImplemented else np.ndarray.__imul__(self, o)
+
+    def __itruediv__(self, o):
+        r = self._inplace(o, lambda a, b: a / b)
+        return r if r is not NotImplemented else np.ndarray.__itruediv__(self, o)
+
     def __array_function__(self, func, types_, args, kwargs):
         return _array_function(self, func, types_, args, kwargs)
 
